@@ -574,8 +574,14 @@ func (r *run) step(op Op) (msg string) {
 			}
 			got = r.descR(v.Elem().Interface(), nil)
 		}
-		if got != want {
-			return fmt.Sprintf("%+v: real %s model %s", op, got, want)
+		// Addr is not among the operations the property specifies: when it fails, and whether a stored value
+		// is addressable, is the implementation's business. What it returns on success must be the binding
+		// a lookup would find.
+		if got != "ERR" && want != "ERR" && got != want {
+			return fmt.Sprintf("%+v: Addr points at %s, the nearest binding is %s", op, got, want)
+		}
+		if got != "ERR" && !ok {
+			return fmt.Sprintf("%+v: Addr succeeded for a name that is bound nowhere (points at %s)", op, got)
 		}
 	case "Delete":
 		e.Delete(op.Name)
